@@ -49,6 +49,11 @@ let handle t =
                 OpValidAssign (i, j)
             | "A" -> let i = nn () in let j = nn () in OpAddSplit (i, j)
             | "M" -> let i = nn () in let j = nn () in OpMoveSplits (i, j)
+            | "K" -> let i = nn () in let j = nn () in
+                let sp = (List.nth !m (int_of_nat j)).splits in
+                (match check_split_owner (fun _ _ -> false) (fun _ _ -> false) (nat_of_int 200) !m i sp with
+                 | Some (m', b) -> m := m'; ans := show_bool b | None -> raise Exit);
+                OpPts (i, (List.nth !m (int_of_nat i)).has_pts)       (* state already updated *)
             | "G" -> let i = nn () in
                 (match get_real (fuel_of !m) !m (Some i) with
                  | Some r -> ans := opt_idx r | None -> raise Exit);
